@@ -10,7 +10,14 @@
 (*                                  (store without SetNX used by more than one generator       *)
 (*                                  instance: no such store exists in tunnox-core, see         *)
 (*                                  driver) - every other clause still is                      *)
-(*   Call   [p, op, id]            op = "Gen" (Generate / AllocateNodeID) | "Rel" (Release id) *)
+(*                                  optional (traces of the IDManager's retry layer, d =         *)
+(*                                  "uniq:<store>:<layout>:<api>"): repo = ids that exist in the  *)
+(*                                  caller's repository (what its check function answers         *)
+(*                                  "exists" for) - taken although they carry no marker;         *)
+(*                                  clean = TRUE: no store fault is injected in this trace, so   *)
+(*                                  every live marker must be accounted for                      *)
+(*   Call   [p, op, id]            op = "Gen" (Generate / GenerateUniqueXxxID / AllocateNodeID)   *)
+(*                                  | "Rel" (Release id)                                          *)
 (*   Ret    [p, op, ok, id, err]   err = "" | "exhausted" | "entropy" (the random source the    *)
 (*                                  driver made fail was reported, by error or abort, and no id *)
 (*                                  was handed out) | other error class; a failed               *)
@@ -28,11 +35,16 @@
 (* Clauses (the statement of C15):                                                            *)
 (*   Duplicate       a successful Gen returns an id that is outstanding                       *)
 (*   Taken           a successful Gen returns an id that was taken before the trace began     *)
+(*                   (":repo": taken according to the caller's repository - "a returned id    *)
+(*                   was free at return" for GenerateUniqueXxxID)                             *)
 (*   UncleanFailure  a Gen that fails does so with anything but the exhaustion error, or      *)
 (*                   (allocator) fails but keeps an id as its own (":stale-own-id")           *)
 (*                   ("fails cleanly instead of duplicating": with every candidate taken the  *)
 (*                   only accepted outcomes are that error - a success would be Taken or      *)
-(*                   Duplicate)                                                               *)
+(*                   Duplicate), or (":marker-left", clean traces only) at quiescence a live  *)
+(*                   marker belongs neither to a pre-existing id nor to an outstanding one:   *)
+(*                   a generation that gave up (or collided and went on) left its candidate   *)
+(*                   marked - not failing cleanly: that id can never be generated again       *)
 (*   Unmarked        at quiescence an outstanding id has no live marker in the shared store   *)
 (*                   although nothing expired it and nobody released it (the next generation  *)
 (*                   anywhere would hand it out again), or an id taken before the trace began *)
@@ -52,15 +64,18 @@
 EXTENDS VLib
 
 VARIABLES d, scope, taken,
+          repo,      \* ids that exist in the caller's repository (no marker expected)
+          clean,     \* the trace promises that no store fault was injected
           out,       \* outstanding: set of [id, p, n]  (n = line of the Ret, makes it a multiset)
           expired    \* ids for which an Expire was seen (only qualifies the detail of Duplicate)
-vars == <<l, viol, d, scope, taken, out, expired>>
+vars == <<l, viol, d, scope, taken, repo, clean, out, expired>>
 
 Elems(s) == {s[i] : i \in 1..Len(s)}
-Init == l = 1 /\ viol = {} /\ d = "?" /\ scope = TRUE /\ taken = {} /\ out = {} /\ expired = {}
+Init == l = 1 /\ viol = {} /\ d = "?" /\ scope = TRUE /\ taken = {} /\ repo = {} /\ clean = FALSE /\ out = {} /\ expired = {}
 
 TrCfg == /\ Is("Cfg")
          /\ d' = Ev.d /\ scope' = Ev.scope /\ taken' = Elems(Ev.taken)
+         /\ repo' = (IF Has("repo") THEN Elems(Ev.repo) ELSE {}) /\ clean' = (Has("clean") /\ Ev.clean)
          /\ l' = l + 1 /\ UNCHANGED <<viol, out, expired>>
 
 Oldest(S) == CHOOSE r \in S : \A q \in S : r.n <= q.n
@@ -72,13 +87,14 @@ TrCall == /\ Is("Call")
                                ELSE IF any # {} THEN out \ {Oldest(any)} ELSE out
                      /\ taken' = taken \ {Ev.id}
              ELSE UNCHANGED <<out, taken>>
-          /\ l' = l + 1 /\ UNCHANGED <<viol, d, scope, expired>>
+          /\ l' = l + 1 /\ UNCHANGED <<viol, d, scope, repo, clean, expired>>
 
 TrRet == /\ Is("Ret")
          /\ IF Ev.op = "Gen"
             THEN IF Ev.ok
                  THEN /\ viol' = viol
                            \cup (IF Ev.id \in taken THEN {V("Taken", d)} ELSE {})
+                          \cup (IF Ev.id \in repo THEN {V("Taken", d \o ":repo")} ELSE {})
                            \cup (IF scope /\ \E r \in out : r.id = Ev.id
                                  THEN {V("Duplicate", d \o (IF Ev.id \in expired THEN ":after-expiry" ELSE ""))}
                                  ELSE {})
@@ -87,27 +103,29 @@ TrRet == /\ Is("Ret")
                                        \cup (IF Has("own") /\ Ev.own # "" THEN {V("UncleanFailure", d \o ":stale-own-id")} ELSE {})
                       /\ out' = out
             ELSE UNCHANGED <<viol, out>>
-         /\ l' = l + 1 /\ UNCHANGED <<d, scope, taken, expired>>
+         /\ l' = l + 1 /\ UNCHANGED <<d, scope, taken, repo, clean, expired>>
 
 TrCrash == /\ Is("Crash")
            /\ out' = {r \in out : r.p # Ev.p}
-           /\ l' = l + 1 /\ UNCHANGED <<viol, d, scope, taken, expired>>
+           /\ l' = l + 1 /\ UNCHANGED <<viol, d, scope, taken, repo, clean, expired>>
 
 TrExpire == /\ Is("Expire")
             /\ expired' = expired \cup {Ev.id}
-            /\ l' = l + 1 /\ UNCHANGED <<viol, d, scope, taken, out>>
+            /\ l' = l + 1 /\ UNCHANGED <<viol, d, scope, taken, repo, clean, out>>
 
 TrSnap == /\ Is("Snap")
           /\ LET missing == {r \in out : r.id \notin expired /\ r.id \notin Elems(Ev.markers)}
                  lost    == {x \in taken : x \notin expired /\ x \notin Elems(Ev.markers)}
+                 left    == {x \in Elems(Ev.markers) : x \notin taken /\ \A r \in out : r.id # x}
              IN viol' = IF Ev.quiet /\ scope /\ viol = {}
                         THEN (IF missing # {} THEN {V("Unmarked", d)} ELSE {})
                              \cup (IF lost # {} THEN {V("Unmarked", d \o ":pre-existing")} ELSE {})
+                             \cup (IF clean /\ left # {} THEN {V("UncleanFailure", d \o ":marker-left")} ELSE {})
                         ELSE viol
-          /\ l' = l + 1 /\ UNCHANGED <<d, scope, taken, out, expired>>
+          /\ l' = l + 1 /\ UNCHANGED <<d, scope, taken, repo, clean, out, expired>>
 
 TrEnd == /\ Is("End") /\ EmitVerdict
-         /\ l' = l + 1 /\ viol' = {} /\ d' = "?" /\ scope' = TRUE /\ taken' = {} /\ out' = {} /\ expired' = {}
+         /\ l' = l + 1 /\ viol' = {} /\ d' = "?" /\ scope' = TRUE /\ taken' = {} /\ repo' = {} /\ clean' = FALSE /\ out' = {} /\ expired' = {}
 
 Next == TrCfg \/ TrCall \/ TrRet \/ TrCrash \/ TrExpire \/ TrSnap \/ TrEnd
 Spec == Init /\ [][Next]_vars
